@@ -31,7 +31,8 @@ template <class GC> static void run_smr_program(const Program& P, int nslots, bo
   auto retire_obj = [&](Obj* o) { if (!o) return; xev("retire", id_of(o)); xev("pass"); if (func_retire) GC::template retire<Obj>(o, disposer_fn); else GC::template retire<ObjDisposer>(o); };
   auto thread_body = [&](const std::vector<Op>& ops, bool is_worker) {
     ThreadState<GC> ts(nslots);
-    if (nslots > 8) for (int k = 0; k < nslots; ++k) ts.g[k] = new typename GC::Guard;   // "many guards" variants: guard k really is the k-th guard of the thread (extension blocks for DHP)
+    bool manual = false; for (auto& o : ops) if (o.name == "galloc") manual = true;   // galloc:n / gfree: the program allocates and frees the guards itself
+    if (nslots > 8 && !manual) for (int k = 0; k < nslots; ++k) ts.g[k] = new typename GC::Guard;   // "many guards" variants: guard k really is the k-th guard of the thread (extension blocks for DHP)
     for (auto& o : ops) {
       if (o.name == "prot") { size_t k = (size_t)o.arg(0); if (!ts.attached) continue; if (!ts.g[k]) ts.g[k] = new typename GC::Guard;
         xev("pbeg"); Obj* p = ts.g[k]->protect(W->link[o.arg(1) % NLINK]); xev("pend");
@@ -43,8 +44,11 @@ template <class GC> static void run_smr_program(const Program& P, int nslots, bo
       else if (o.name == "retn") { if (!ts.attached) continue; for (long i = 0; i < o.arg(0); ++i) retire_obj(W->make()); }
       else if (o.name == "scan") { if (!ts.attached) continue; xev("scanbeg"); xev("pass"); GC::scan(); xev("scanend"); }
       else if (o.name == "detach") { if (ts.attached) { ts.drop_all(); xev("pass"); detach(); xev("detach"); ts.attached = false; } }
-      else if (o.name == "attach") { if (!ts.attached) { attach(); ts.attached = true; } }
+      else if (o.name == "attach") { if (!ts.attached) { attach(); ts.attached = true;
+          if (nslots > 8 && !manual) for (int k = 0; k < nslots; ++k) if (!ts.g[k]) ts.g[k] = new typename GC::Guard; } }   // many-guard variants: all guards again (recycled extension blocks)
       else if (o.name == "yield") { sched_yield(); }
+      else if (o.name == "galloc") { if (!ts.attached) continue; for (int k = 0; k < (int)o.arg(0) && k < nslots; ++k) if (!ts.g[k]) ts.g[k] = new typename GC::Guard; }
+      else if (o.name == "gfree") { ts.drop_all(); }
       // holdn:n  -- create n objects in the pool links, each protected by a guard of its own (DHP: any number of guards)
       else if (o.name == "holdn") { if (!ts.attached) continue; for (long i = 0; i < o.arg(0) && W->pool_used < World::NPOOL; ++i) { int slot = W->pool_used++; W->pool[slot].store(W->make()); typename GC::Guard* g = new typename GC::Guard;
           xev("pbeg"); Obj* p = g->protect(W->pool[slot]); xev("pend"); xev("gset", (long)(1000 + ts.extra.size()), id_of(p)); ts.extra.push_back(g); } }
